@@ -140,7 +140,7 @@ class S(diff.DiffOperator):
             # kgrid
             kgrid = sm.options.get("kgrid")
             kgrid = self.kgrid if kgrid is None else kgrid
-            if kgrid is None:
+            if kgrid is None or not np.all(np.asarray(kgrid, dtype=float) > 0):
                 raise AttributeError("kgrid not set")
 
             # apply (not inplace)
